@@ -26,6 +26,11 @@ TU = "scriptplan/_cython/time_utils_cy.pyx"
 MP = "scriptplan/parser/macro_processor.py"
 
 MUTANTS = [
+    # ------------------------------------------------------------------ reverts of repaired defects F52, F53 (C17)
+    ("c17_date_to_idx_truncates", "C17", [(SB, "        idx = math.floor(diff / self.resolution)", "        idx = int(diff / self.resolution)")]),
+    ("c17_zero_length_interval_reported", "C17", [(SB, "                        if start < current_idx:\n                            intervals.append(", "                        if True:\n                            intervals.append(")]),
+    # ------------------------------------------------------------------ revert of repaired defect F51 (C11)
+    ("c11_macro_size_unbounded", "C11", [(MP, "            if len(content) > max_size:\n", "            if False:\n")]),
     # ------------------------------------------------------------------ revert of repaired defect F50 (C09)
     ("c09_alap_anchor_follows_horizon", "C09", [(TS, "                    latest_end = getattr(self.project, \"declaredEnd\", None) or self.project[\"end\"]", "                    latest_end = self.project[\"end\"]")]),
     # ------------------------------------------------------------------ reverts of repaired defect F48 (C02)
@@ -82,7 +87,7 @@ MUTANTS = [
     # ------------------------------------------------------------------ C02
     ("c02_available_skips_onshift", "C02", [(RS, "        if not self.onShift(sb_idx):\n            return False\n\n        # Check if slot has any available time",
                                              "        # Check if slot has any available time")]),
-    ("c02_leave_end_inclusive", "C02", [(RS, "leave.interval.start <= date < leave.interval.end", "leave.interval.start < date < leave.interval.end")]),
+    ("c02_leave_end_inclusive", "C02", [(RS, "ALL:leave.interval.start <= date < leave.interval.end", "leave.interval.start < date < leave.interval.end")]),
     ("c02_weekend_gt5", "C02", [(PJ, "        if weekday >= 5:  # Saturday or Sunday", "        if weekday > 5:  # Saturday or Sunday")]),
     ("c02_hours_le17", "C02", [(PJ, "        result: bool = 9 <= hour < 17  # Within 9am-5pm", "        result: bool = 9 <= hour <= 17  # Within 9am-5pm")]),
     ("c02_tz_not_passed_own_hours", "C02", [(RS, "            result2: bool = workinghours.onShift(sb_idx, timezone=resource_tz)", "            result2: bool = workinghours.onShift(sb_idx)")]),
@@ -169,7 +174,7 @@ MUTANTS = [
     ("c13_unguarded_fast_call", "C13", [(WH, "        if _USE_CYTHON:\n            return float(calculate_daily_hours(self._hours[weekday]))\n", "        return float(calculate_daily_hours(self._hours[weekday]))\n")]),
     ("c13_pyx_mod_negative", "C13", [(WP, "        prev_weekday = (weekday + 6) % 7", "        prev_weekday = (weekday - 1) % 7")]),
     ("c13_pyx_float_return", "C13", [(WP, "cpdef double calculate_daily_hours(list intervals):", "cpdef float calculate_daily_hours(list intervals):")]),
-    ("c13_project_idx_rounding", "C13", [(PJ, "        idx: int = int(diff_seconds / self.attributes[\"scheduleGranularity\"])\n        return idx", "        idx: int = round(diff_seconds / self.attributes[\"scheduleGranularity\"])\n        return idx")]),
+    ("c13_project_idx_rounding", "C13", [(PJ, "        idx: int = math.floor(diff_seconds / self.attributes[\"scheduleGranularity\"])\n        return idx", "        idx: int = round(diff_seconds / self.attributes[\"scheduleGranularity\"])\n        return idx")]),
     ("c13_collect_min_duration_gt", "C13", [(SP, "            if duration >= min_duration_slots:", "            if duration > min_duration_slots:")]),
     ("c13_setup_directive", "C13", [("setup.py", "                \"cdivision\": True,", "                \"cdivision\": False,")]),
     # ------------------------------------------------------------------ C14
@@ -237,8 +242,8 @@ BENIGN = [
     ("b_limit_compare_swapped_operands", ["C05"], [(LM, "            if self.upper:\n                return count < self.value\n            else:\n                return count >= self.value", "            if self.upper:\n                return self.value > count\n            else:\n                return count >= self.value")]),
     ("b_echo_err_reordered_kw", ["C19"], [(PL, "click.secho(\"✓ Report generation completed successfully\", fg=\"green\", err=True)", "click.secho(\"✓ Report generation completed successfully\", err=True, fg=\"green\")")]),
     ("b_extra_stderr_message", ["C19", "C20"], [(PL, "        # Determine output format\n        output_format = \"csv\" if output_csv else \"json\"", "        # Determine output format\n        output_format = \"csv\" if output_csv else \"json\"\n        logger.debug(\"format %s\", output_format)")]),
-    ("b_pyx_local_renamed", ["C13", "C17"], [(SP, "    cdef double diff_seconds\n    cdef int idx\n\n    # Calculate difference in seconds\n    diff_seconds = _total_seconds(date - start_date)\n\n    # Integer division for index\n    idx = <int>(diff_seconds / <double>resolution)",
-                                              "    cdef double delta_s\n    cdef int idx\n\n    # Calculate difference in seconds\n    delta_s = _total_seconds(date - start_date)\n\n    # Integer division for index\n    idx = <int>(delta_s / <double>resolution)")]),
+    ("b_pyx_local_renamed", ["C13", "C17"], [(SP, "    cdef double diff_seconds\n    cdef int idx\n\n    # Calculate difference in seconds\n    diff_seconds = _total_seconds(date - start_date)\n\n    # Integer division for index\n    idx = <int>floor(diff_seconds / <double>resolution)",
+                                              "    cdef double delta_s\n    cdef int idx\n\n    # Calculate difference in seconds\n    delta_s = _total_seconds(date - start_date)\n\n    # Integer division for index\n    idx = <int>floor(delta_s / <double>resolution)")]),
     ("b_fallback_reordered_tests", ["C13", "C17"], [(SB, "        if forceIntoProject:\n            if idx < 0:\n                return 0\n            if idx >= self.size:\n                return self.size - 1\n        elif idx < 0 or idx >= self.size:\n            raise IndexError(f\"Date",
                                                      "        if forceIntoProject:\n            if idx >= self.size:\n                return self.size - 1\n            if idx < 0:\n                return 0\n        elif idx < 0 or idx >= self.size:\n            raise IndexError(f\"Date")]),
     ("b_week_index_floor_div_variant", ["C08", "C14", "C05"], [(LM, "            return (slot_monday - start_monday).days // 7", "            weeks = (slot_monday - start_monday).days // 7\n            return weeks")]),
